@@ -1067,7 +1067,7 @@ Definition pfield_body (ts : list tk)
   | _ => RErr
   end.
 
-(* parseFunc for a function type (lit: a function literal is admitted) or a macro type, after the keyword *)
+(* parseFunc for a function type (lit: a function literal may follow) or a macro type, after the keyword *)
 Definition pfunc_body (macro lit : bool) (ts : list tk)
   : xres (ex * list tk) :=
   match ts with
